@@ -53,8 +53,8 @@ def month0_need(iso, strat):
     k = (iso, strat)
     if k not in _need_cache:
         animals, _, _, _ = call_main(iso, strat, [0.0], [0.0], "meat")
-        tot = sum(a.net_energy_required_per_month() * a.population[0] for a in animals)
-        rum = sum(a.net_energy_required_per_month() * a.population[0] for a in animals if a.digestion_type == "ruminant")
+        tot = sum(req_per_head(a) * a.population[0] for a in animals)
+        rum = sum(req_per_head(a) * a.population[0] for a in animals if a.digestion_type == "ruminant")
         _need_cache[k] = (tot / EFF_FEED, rum / EFF_GRASS)
     return _need_cache[k]
 
@@ -165,7 +165,7 @@ def check_execution(iso, strat, order, feed, grass, want=("C06", "C07")):
             served_short = None
             for a in animals:
                 pop = a.population[m]
-                R = a.net_energy_required_per_month() * pop
+                R = req_per_head(a) * pop
                 rum = a.digestion_type == "ruminant"
                 starving = a.population_starving_pre_slaughter[m + 1]
                 if R == 0:
@@ -236,6 +236,14 @@ def countries():
     with open(common.REPO + "/data/no_food_trade/computer_readable_combined.csv") as f:
         isos = [r["iso3"] for r in csv.DictReader(f)]
     return isos + ["WOR"]
+
+
+def req_per_head(a):
+    """net energy one animal needs per month, written out from the documented factors (livestock unit x regional factor x the
+    energy of one livestock unit) at the time of the check, i.e. with the regional factor the run ended up with; NOT read back
+    from the species' own requirement method (a value remembered there from before the regional factor was assigned would agree
+    with itself)"""
+    return a.livestock_unit * a.one_LSU_monthly_billion_kcal() * a.LSU_factor
 
 
 def plan(tier, seed):
